@@ -130,8 +130,15 @@ pub async fn handle_did_change_text_document(
         tracing::warn!("Failed to mark file as dirty: {}", err);
     }
 
+    // This handler can run while the `didOpen` of the same document is still initializing the
+    // workspace (the dispatcher polls several handlers concurrently). Wait for that initialization
+    // instead of failing with "document not found", which silently dropped the change and left the
+    // server one edit behind the client for good.
+    let sync_workspace = state
+        .get_or_init_sync_workspace(&params.text_document.uri)
+        .await?;
     let (uri, session) = state.uri_and_session_from_workspace(&params.text_document.uri)?;
-    let sync_workspace = state.get_sync_workspace_for_uri(&params.text_document.uri)?;
+    state.documents.handle_open_file(&uri).await;
     state
         .documents
         .write_changes_to_file(&uri, &params.content_changes)
